@@ -5,6 +5,7 @@ import (
 	"context"
 	"crypto/tls"
 	"fmt"
+	"net"
 	"strings"
 	"sync"
 	"testing"
@@ -99,15 +100,41 @@ func c07Run(c c07Case) []*core.Violation {
 	}
 	var ln *refsmtp.TCPListener
 	var err error
-	if implicit && c.Handshake == "garbage" {
+	fallback := c.Policy == "implicit-fallback"
+	switch {
+	case fallback:
+		// implicit TLS with a fallback port: the primary port refuses the connection and a PLAIN-TEXT
+		// SMTP server answers on the fallback port 25
+		implicit = true
+		ln, err = refsmtp.ListenTCPPort(c.Host, 25, srv, false)
+		if err != nil {
+			rec.AddExtra("skipped_port_25_not_bindable", 1)
+			return nil
+		}
+	case implicit && c.Handshake == "garbage":
 		ln, err = refsmtp.ListenTCP(c.Host, srv, false)
-	} else {
+	default:
 		ln, err = refsmtp.ListenTCP(c.Host, srv, implicit)
 	}
 	if err != nil {
 		return []*core.Violation{core.V("HARNESS-listen", "%v", err)}
 	}
-	opts := []mail.Option{mail.WithPort(ln.Port()), mail.WithTimeout(3 * time.Second), mail.WithHELO("client.verif.example")}
+	port := ln.Port()
+	if fallback {
+		// a port nobody listens on
+		tmp, lerr := net.Listen("tcp", net.JoinHostPort(c.Host, "0"))
+		if lerr != nil {
+			ln.Close()
+			return []*core.Violation{core.V("HARNESS-listen", "%v", lerr)}
+		}
+		port = tmp.Addr().(*net.TCPAddr).Port
+		_ = tmp.Close()
+	}
+	opts := []mail.Option{mail.WithTimeout(3 * time.Second), mail.WithHELO("client.verif.example")}
+	if fallback {
+		opts = append(opts, mail.WithSSLPort(true))
+	}
+	opts = append(opts, mail.WithPort(port))
 	switch c.Policy {
 	case "mandatory":
 		opts = append(opts, mail.WithTLSPolicy(mail.TLSMandatory))
@@ -156,6 +183,9 @@ func c07Run(c c07Case) []*core.Violation {
 	policy := c.Policy
 	if policy == "default" {
 		policy = "mandatory"
+	}
+	if policy == "implicit-fallback" {
+		policy = "implicit"
 	}
 	for _, s := range sessions {
 		select {
@@ -282,7 +312,7 @@ func c07Cases(full bool) []c07Case {
 
 func c07Describe() {
 	rec := core.Rec("C07")
-	rec.Rule = "real TCP sessions (default dialers, the client's DEFAULT tls.Config with the harness CA installed as the only system root through SSL_CERT_FILE) of DialAndSend against the reference server on 127.0.0.1 (a localhost name by go-mail's rule) and 127.0.0.2 (not): product of TLS policy {mandatory, default (no option), opportunistic, none, implicit} x 13 auth types x host x server behaviour {STARTTLS advertised or not; STARTTLS answered 220 / 454 / 502 / garbage; handshake ok / certificate for another name / certificate of an untrusted CA / garbage bytes; plain-text speaker on the implicit-TLS port} x advertised AUTH lists (2 in quick, 7 in thorough, incl. only-cleartext mechanisms, empty, absent). Fresh random 16-character credentials per case. Both tiers enumerate their product completely (quick with 2 AUTH lists, thorough with 7). TestC07Names adds, over in-memory connections, 18 host names around go-mail's localhost rule (exact names, names that merely start/end with or contain 'localhost', 127.x look-alikes) x {none, opportunistic without STARTTLS} x {PLAIN, LOGIN, AUTODISCOVER} x 3 AUTH lists. " +
+	rec.Rule = "real TCP sessions (default dialers, the client's DEFAULT tls.Config with the harness CA installed as the only system root through SSL_CERT_FILE) of DialAndSend against the reference server on 127.0.0.1 (a localhost name by go-mail's rule) and 127.0.0.2 (not): product of TLS policy {mandatory, default (no option), opportunistic, none, implicit} x 13 auth types x host x server behaviour {STARTTLS advertised or not; STARTTLS answered 220 / 454 / 502 / garbage; handshake ok / certificate for another name / certificate of an untrusted CA / garbage bytes; plain-text speaker on the implicit-TLS port; implicit TLS configured with a fallback port (WithSSLPort) where the primary port refuses and a plain-text server listens on the fallback port 25} x advertised AUTH lists (2 in quick, 7 in thorough, incl. only-cleartext mechanisms, empty, absent). Fresh random 16-character credentials per case. Both tiers enumerate their product completely (quick with 2 AUTH lists, thorough with 7). TestC07Names adds, over in-memory connections, 18 host names around go-mail's localhost rule (exact names, names that merely start/end with or contain 'localhost', 127.x look-alikes) x {none, opportunistic without STARTTLS} x {PLAIN, LOGIN, AUTODISCOVER} x 3 AUTH lists. " +
 		"Oracle on the byte tap: under mandatory policy the cleartext consists of EHLO/HELO, STARTTLS and QUIT lines only, no session continues after a handshake with an invalid certificate, nothing but QUIT (or TLS records) follows a failed handshake; implicit TLS: first byte is a TLS record and no SMTP verb in clear; under every policy the PLAIN/LOGIN password never appears in the cleartext raw, hex or base64 (3 alignments) unless the type is *-NOENC or the host is localhost; AUTODISCOVER never issues AUTH PLAIN/LOGIN/XOAUTH2 on an unencrypted connection. " +
 		"Non-trivial: the server deviates from the happy path or the policy is not 'none'. Distinct by the case tuple."
 	rec.Assumptions = []string{"Go's root loader honours SSL_CERT_FILE/SSL_CERT_DIR (Linux)", "127.0.0.2 is bindable on the loopback interface"}
@@ -308,6 +338,23 @@ func TestC07Enum(t *testing.T) {
 		core.Rec("C07").AddExtra("enumerated_product_cases", 1)
 		if v := p.RunOne(c); v != nil {
 			t.Fatalf("VIOLATION-DETAIL property=C07 %s", v)
+		}
+	}
+	if core.Shard == 0 {
+		// port 25 can only be bound by one process at a time: these cases run in shard 0 only
+		k := 0
+		for _, host := range []string{"127.0.0.1", "127.0.0.2"} {
+			for _, auth := range []string{"", "PLAIN", "LOGIN", "AUTODISCOVER", "CRAM-MD5"} {
+				for _, al := range []string{"PLAIN LOGIN", "LOGIN PLAIN CRAM-MD5"} {
+					k++
+					c := c07Case{Policy: "implicit-fallback", Auth: auth, Host: host, StartTLS: k%2 == 0, TLSReply: "ok", Handshake: "ok", AuthList: al,
+						User: "user" + core.Hash(fmt.Sprint("fu", k)), Pass: core.Hash(fmt.Sprint("fp", k, core.Seed)) + "Qq7"}
+					core.Rec("C07").AddExtra("implicit_tls_fallback_port_cases", 1)
+					if v := p.RunOne(c); v != nil {
+						t.Fatalf("VIOLATION-DETAIL property=C07 %s", v)
+					}
+				}
+			}
 		}
 	}
 	core.Rec("C07").Exhaustive = true
